@@ -358,7 +358,10 @@ json WorldT::describe(CheckSpec const& spec) const
     std::string rule
         = "Each evaluation is one seeded plan: a generated problem (bundled ORANGE geometry, "
           "1-3 materials, gamma/e-/e+ with simulator-owned stub processes over random positive "
-          "xs/dEdx/range tables, cuts, physics options, along-step neutral|linear(mean/fluct)|"
+          "xs/dEdx/range tables -- and, in a third of the problems, additionally the REAL "
+          "KleinNishinaModel, MollerBhabhaModel (simulator-owned cross-section table, zero up to "
+          "a knot above twice the electron cut) and EPlusAnnihilationProcess/EPlusGGModel "
+          "(on-the-fly cross section, also at rest) in the same loop --, cuts, physics options, along-step neutral|linear(mean/fluct)|"
           "uniform-field) x configuration (1-64 slots, 8 track orders, exact or ample "
           "initializer capacity, timing, status checker, callbacks) x workload (1-3 event ops, "
           "merged events, primaries arriving mid-flight) run on the real Stepper; the recorded "
@@ -373,9 +376,11 @@ json WorldT::describe(CheckSpec const& spec) const
           "InitializeTracks", "PreStep", "DiscreteSelect", "InteractionApplier", "TrackingCut",
           "Boundary", "AlongStepNeutral/GeneralLinear/UniformMsc (no MSC)", "PhysicsParams + grids",
           "CutoffParams", "SortTracksAction", "StatusChecker", "StepCollector", "SimpleCalo",
-          "ActionDiagnostic", "StepDiagnostic", "ORANGE navigation", "XorwowRngEngine + reseed"}},
+          "ActionDiagnostic", "StepDiagnostic", "ORANGE navigation", "XorwowRngEngine + reseed",
+          "real-physics plans: KleinNishinaModel, MollerBhabhaModel, EPlusAnnihilationProcess + "
+          "EPlusGGModel (hardwired on-the-fly xs)"}},
         {"stub", {"StubProcess/StubModel (simulator-owned interaction outcome generator)"}},
-        {"not_run", {"real EM models (world I)", "Urban MSC", "device code"}}};
+        {"not_run", {"EM models that need imported data (they run on the bench, world I)", "Urban MSC", "device code"}}};
     d["assumptions"] = {
         "physics tables are synthetic (no Geant4 data offline)",
         "MPI and OpenMP are configured off in the verification build",
